@@ -3,16 +3,79 @@ module-level name injected into the module under analysis, in the checker's
 process only.  Nothing under /repo is touched.  Every shim is transparent for
 concrete (non-proxy) arguments.  See DESIGN.md section 2.2."""
 import re
+import contextlib
 import z3
 from . import symx
 from .symx import SymNum, SymBool
 
 
 # -- VM -------------------------------------------------------------------------
+# `int(x)` / `float(x)` must return exact builtin numbers, which a proxy cannot be: the names are shadowed in the VM module by classes
+# that convert like the builtins (proxies: truncation / ToReal) and still work as types (`isinstance(v, (int, float))`, `case int():`,
+# `type(v) is int` through the module's `type` shim).
+class _IntShimMeta(type):
+    def __call__(cls, *a, **kw):
+        return symx.sym_int(*a, **kw)
+
+    def __instancecheck__(cls, obj):
+        return sym_isinstance(obj, _builtin_int)
+
+
+class _FloatShimMeta(type):
+    def __call__(cls, *a, **kw):
+        return symx.sym_float(*a, **kw)
+
+    def __instancecheck__(cls, obj):
+        return sym_isinstance(obj, _builtin_float)
+
+
+_builtin_int, _builtin_float = int, float
+
+
+class IntShim(int, metaclass=_IntShimMeta):
+    pass
+
+
+class FloatShim(float, metaclass=_FloatShimMeta):
+    pass
+
+
+class _VMTypeMeta(type):
+    def __instancecheck__(cls, obj):
+        return _builtin_isinstance(obj, _builtin_type)
+
+    def __call__(cls, *a, **kw):
+        if len(a) == 1 and not kw:
+            t = sym_type(a[0])
+            # inside the VM module the names int / float denote the shim classes
+            return IntShim if t is _builtin_int else FloatShim if t is _builtin_float else t
+        return _builtin_type(*a, **kw)
+
+
+class vm_type(metaclass=_VMTypeMeta):
+    """`type` inside nsl.VM: like sym_type, but ints and floats are reported as the module's (shadowed) int / float"""
+
+
+@contextlib.contextmanager
+def no_vm_shims():
+    """a concrete run against the unshimmed VM module"""
+    from nsl import VM
+    saved = {n: VM.__dict__.get(n) for n in ("int", "float", "type")}
+    for n in saved:
+        VM.__dict__.pop(n, None)
+    try:
+        yield
+    finally:
+        for n, v in saved.items():
+            if v is not None:
+                VM.__dict__[n] = v
+
+
 def install_vm():
     from nsl import VM
-    VM.float = symx.sym_float
-    VM.int = symx.sym_int
+    VM.float = FloatShim
+    VM.int = IntShim
+    VM.type = vm_type
     return ["nsl.VM.float -> ToReal for proxies", "nsl.VM.int -> truncation for proxies"]
 
 
